@@ -6,6 +6,7 @@ from common import case_line
 from gen import all_bounds, bound_text, sides, wellformed_bound
 
 LEVEL = "proof"
+COUNTS = ["f", "l", "b"]        # modes of cases.count_thresholds
 
 
 def mirror(v, n):
